@@ -826,7 +826,10 @@ def nat_validate(h):
         h.check(ok, P + 'validate.py::validate', (vals, mode, use_field), None, got[:2])
 
 
+from contracts import C10 as _K10   # noqa: E402  (ResourceMatcher: the contract every selector-taking step is checked against)
+
 ITEMS = [
+    _K10._mk_matcher_item(),
     Item('schema_validator', sym_schema_validator, [('differential', nat_schema_validator)], SV_FILE + '::schema_validator'),
     Item('wrap_handler', sym_wrap_handler, [('custom-handlers', nat_custom_handlers)], SV_FILE + '::wrap_handler'),
     Item('handlers', sym_handlers, [], SV_FILE + '::clear'),
